@@ -129,6 +129,20 @@ struct HistGen {
     HistOpts o;
     Program p;
     std::vector<SlotState> ss;
+    // values already used in this history: re-submitting the *same* key / tweak / counter is a legal call
+    // that a caching or "unchanged value" fast path would get wrong
+    std::vector<Bytes> keypool, tweakpool, ctrpool;
+    Bytes reuse_or(std::vector<Bytes> &pool, size_t n, int percent, bool counter = false) {
+        if (!pool.empty() && *chance(percent)) {
+            Bytes b = *rc::gen::elementOf(pool);
+            if (b.size() > n) b.resize(n);          // a prefix of an earlier value is just as interesting
+            else if (b.size() < n) b.resize(n, 0);
+            return b;
+        }
+        Bytes b = counter ? *gcounter(n) : *gbytes(n);
+        pool.push_back(b);
+        return b;
+    }
 
     int add_slot(int kind, int be, int fill = 0) {
         p.push_back(mkop(std::string("new.") + kname(kind)).set("fill", fill));
@@ -159,7 +173,7 @@ struct HistGen {
         bool inv = !s.live;
         if (s.kind == CM || s.kind == PM) {
             Op k = base(i, "set_key", inv);
-            k.set("key", *gbytes(16)).set("len", 16).set("rounds", *irange(5, 8)).set("ko", *goffset());
+            k.set("key", reuse_or(keypool, 16, 25)).set("len", 16).set("rounds", *irange(5, 8)).set("ko", *goffset());
             if (s.kind == PM) k.set("mode", *irange(0, 1));
             p.push_back(k);
             if (!inv) { s.keyed = true; s.tweaked = true; }
@@ -168,7 +182,7 @@ struct HistGen {
         bool tk = kind_is_ctr(s.kind) && *chance(40);
         int len = *gkeylen(bs, tk ? 2 : 3, o.inbetween);
         Op k = base(i, tk ? "set_tweaked_key" : "set_key", inv);
-        k.set("key", *gbytes(len)).set("len", len).set("ko", *goffset());
+        k.set("key", reuse_or(keypool, (size_t)len, 25)).set("len", len).set("ko", *goffset());
         p.push_back(k);
         if (!inv) { s.keyed = true; s.tweaked = tk; }
     }
@@ -178,7 +192,7 @@ struct HistGen {
         bool inv = !s.live;
         int tl = s.kind == CM ? 8 : *rc::gen::weightedOneOf<int>({{3, rc::gen::just(bs)}, {2, irange(1, bs)}});
         Op t = base(i, "set_tweak", inv);
-        if (*chance(15)) t.setnull("tweak"); else t.set("tweak", *gbytes(tl));
+        if (*chance(15)) t.setnull("tweak"); else t.set("tweak", reuse_or(tweakpool, (size_t)tl, 25));
         t.set("len", tl).set("to", *goffset());
         p.push_back(t);
     }
